@@ -50,4 +50,9 @@ theorem c19_load_body : Gen.PersistText.load_body =
 saved is the object's `__dict__` as Python's default protocol takes it. -/
 theorem c19_no_pickle_hooks : Gen.PersistText.pickle_hooks = [] := by decide
 
+/-- no class of the package defines a data attribute at class level (nor `__slots__`): every attribute an instance has was
+assigned through `self` and therefore lives in its `__dict__` — the only thing `save` pickles and `load` copies
+(`c19_save_body`, `c19_load_body`).  A setting kept as a class-level default would silently stay behind in the receiving object. -/
+theorem c19_state_in_dict : Gen.PersistText.class_data_attrs = [] := by decide
+
 end Opf
